@@ -1997,6 +1997,13 @@ func decodeRunes(s string, n int) (string, int) {
 // not valid hex.
 func parseRune(hex string) rune {
 
+	// ParseInt accepts a sign, which is not a hex digit.
+	for _, c := range hex {
+		if !(c >= '0' && c <= '9') && !(c >= 'a' && c <= 'f') && !(c >= 'A' && c <= 'F') {
+			return -1
+		}
+	}
+
 	n, err := strconv.ParseInt(hex, 16, 32)
 	if err != nil {
 		return -1
